@@ -261,6 +261,7 @@ func checkC03(c *Check) {
 	headersOwnBacking(c, "C03.R3", R)
 	// … over a TLS configuration that carries the trusted CA (C20.R4's pool rule)
 	poolInsertIsFinal(c, "C03.R5")
+	exchangeRejectsForEnumeratedReasonsOnly(c, "C03.R7", R)
 	// the cookie name, client id and callback the round trip relies on are those of the handler's own filter
 	handlerConfigOwn(c, "C03.R1", R)
 	// … and, with discovery, the endpoints the login is completed against are those of the discovery document
@@ -717,6 +718,9 @@ func checkC11(c *Check) {
 	// fresh id only after it returned nil); a crash-free exchange: the decoded answer is dereferenced only when non-nil
 	if c.ID == "C11" {
 		importObls(c, "C05", checkC05, "C11.R4", func(o *Obligation) bool { return strings.HasPrefix(o.Key, "C05.R1/") })
+		// the merged tokens a later check reads are the ones stored: every optional member is written under its own presence
+		// test or deleted (C12.R2)
+		importObls(c, "C12", checkC12, "C11.R2", func(o *Obligation) bool { return strings.HasPrefix(o.Key, "C12.R2/tokens/") })
 		importObls(c, "C15", checkC15, "C11.R3", func(o *Obligation) bool {
 			// dereferences of the decoded token-endpoint answer
 			return strings.HasPrefix(o.Key, "C15.R2/deref/") && (strings.Contains(o.Key, "performIDPRequest#") || strings.Contains(o.Key, "/(*internal/authz.oidcHandler).performIDPRequest/") || strings.Contains(o.Key, "/internal/authz.performIDPRequest/") || strings.Contains(o.Key, "isValidIDP"))
@@ -1265,4 +1269,49 @@ func exchangeIsSentOnce(c *Check, rule string, R *Roles) {
 	}
 	c.Obl(len(sends) >= 1 && bad == "", rule, "exchange-is-sent-once", P.Pos(ex.Pos()), fmt.Sprintf("%d send site(s) in the exchange function, none reachable from another", len(sends)),
 		"the token request can be sent twice in one exchange ("+bad+"): a grant the IdP already processed is replayed with a consumed code or a superseded refresh token")
+}
+
+// exchangeRejectsForEnumeratedReasonsOnly: the token exchange gives up (returns no tokens) only for the
+// enumerated reasons — the request could not be built or sent, the status is not 200, the body could not
+// be read or decoded. Any other failing return (a media-type test, a size limit, a header the provider need
+// not send) refuses a compliant provider's answer and the login never completes.
+func exchangeRejectsForEnumeratedReasonsOnly(c *Check, rule string, R *Roles) {
+	P := c.P
+	ex := R.TokenExchange
+	if !c.Anchor(rule, "token exchange function", ex != nil) {
+		return
+	}
+	ff := FactsOf(ex)
+	n := 0
+	for i, r := range returnsOf(ex) {
+		if len(r.Results) == 0 || !isNilConst(r.Results[0]) {
+			continue // hands the decoded answer back
+		}
+		n++
+		reason := ""
+		for cond, pol := range ff.At(r) {
+			bo, isB := cond.(*ssa.BinOp)
+			if !isB {
+				continue
+			}
+			// err != nil of a request/transport/read/decode step
+			if isNilConst(bo.Y) && (bo.Op == token.NEQ) == pol {
+				if ec, _, isC := asCall(resolveCell(stripConv(bo.X))); isC {
+					id := funcID(calleeOf(ec).Obj)
+					switch {
+					case strings.HasPrefix(id, "net/http.NewRequest"), id == "net/http.Client.Do", id == "io.ReadAll", id == "encoding/json.Unmarshal", id == "encoding/json.Decoder.Decode",
+						strings.HasPrefix(id, "net/http.Client."):
+						reason = "error of " + shortID(id)
+					}
+				}
+			}
+			// status code
+			if k, isK := constInt(bo.Y); isK && k == 200 && depFields(bo.X)["StatusCode"] && ((bo.Op == token.NEQ) == pol) {
+				reason = "status is not 200"
+			}
+		}
+		c.Obl(reason != "", rule, fmt.Sprintf("exchange-rejection/return#%d", i+1), P.Pos(instrPos(r)), "the exchange gives up because of: "+reason,
+			"the token exchange returns without tokens for a reason outside {request/transport/read/decode error, status != 200} (condition: "+descLastCond(r)+"): a compliant provider's answer is refused")
+	}
+	c.Obl(n >= 3, rule, "exchange-rejections", P.Pos(ex.Pos()), fmt.Sprintf("%d failing returns, all for enumerated reasons", n), "failing returns of the token exchange not found (anchor lost)")
 }
